@@ -688,7 +688,8 @@ func loadInlineObjectFromFile(
 
 	cachedView, cacheExists := scope.Tx.CachedViews.Load(fileInfo.IdentifiedPath())
 
-	if cacheExists {
+	// A view that was loaded only to be read does not keep its file open.
+	if cacheExists && cachedView.FileInfo.Handler != nil {
 		fp = cachedView.FileInfo.Handler.File()
 	} else {
 		h, e := scope.Tx.FileContainer.CreateHandlerForRead(ctx, fileInfo.Path, scope.Tx.WaitTimeout, scope.Tx.RetryDelay)
